@@ -146,6 +146,8 @@ class Fn:
             if lt == "u64":
                 if op == "/":
                     return self.bind("Cxx.U64.div %s %s" % (a, b))
+                if op == "%":
+                    return self.bind("Cxx.U64.mod %s %s" % (a, b))
                 f = {"+": "add", "-": "sub", "*": "mul"}.get(op)
                 if not f:
                     raise Unsupported("unsigned op " + op)
